@@ -563,13 +563,10 @@ func c09Run(c *engine.Ctx) {
 			c.Count("texts:"+g.Name, int64(idx))
 		}
 	}
-	opSize, delSize, surfSize := 7, 5, 3
-	if !quick {
-		opSize, delSize, surfSize = 7, 6, 4
-	}
-	check("operators", c09OperatorGrammar(), opSize, true) // size 7 = three binary operators around four atoms
-	check("delimiters", c09DelimiterGrammar(), delSize, true)
-	check("surface", c09SurfaceGrammar(), surfSize, false)
+	// the quick bounds first, completely; the thorough tier goes on with the larger bounds at the end, in time slices
+	check("operators", c09OperatorGrammar(), 7, true) // size 7 = three binary operators around four atoms
+	check("delimiters", c09DelimiterGrammar(), 5, true)
+	check("surface", c09SurfaceGrammar(), 3, false)
 
 	// string literals: every sequence of <= 3 pieces (raw bytes incl. invalid UTF-8, escapes, surrogate escapes, an
 	// interpolation) in every position a string can stand; printing must give a text that parses to the same AST
@@ -726,6 +723,12 @@ func c09Run(c *engine.Ctx) {
 			}
 			c.DistinctN(1)
 		}
+	}
+	if !quick {
+		c.Slice(2)
+		check("delimiters", c09DelimiterGrammar(), 6, true)
+		c.EndSlice()
+		check("surface", c09SurfaceGrammar(), 4, false)
 	}
 }
 
